@@ -66,7 +66,7 @@ Verdict(ev) ==
     [] ev.ev = "schnorr.FromECDSA" ->
          LET d0 == H(ev.d)  pp == PMulG(d0)  dd == H(ev.dneg) IN
          << /\ ev.bytes = IntToHex(pp[1], W) /\ ev.point = EncUncompressedH(XOnly(pp))
-            /\ ev.pubfromecdsa = ev.bytes /\ ev.skbytes = ev.d
+            /\ ev.pubfromecdsa = ev.bytes /\ ev.pubfromecdsa_point = ev.point /\ ev.skbytes = ev.d
             /\ PEq(PMulG(dd), XOnly(pp)) /\ (BigEq(dd, d0) \/ BigEq(dd, SNeg(d0))),            \* signing scalar consistent with the even-y point
             {"from_ecdsa"} >>
     [] ev.ev = "schnorr.Immutable" ->     \* the caller scribbled over every slice / scalar / point handed out or passed in
